@@ -48,7 +48,11 @@ DSpan(sp) == DTime(sp.s)
 
 FullDayD == <<[s |-> [t |-> "fixed", m |-> 0], e |-> [t |-> "fixed", m |-> 1440], open_end |-> FALSE, repeats |-> -1]>>
 DDaySel(r) ==
-  LET y  == JoinD(Map(r.year, DYear), ",")
+  LET \* a single bare year in front of dates is printed `2024-2024`: `2024Jan-Oct,Dec` would be read as
+      \* "Jan-Oct of 2024, Dec of any year" (the year belongs to the first date)
+      y  == JoinD(Map(r.year, DYear), ",")
+              \o (IF Len(r.year) = 1 /\ r.monthday # <<>> /\ r.year[1].a = r.year[1].b /\ r.year[1].step = 1
+                  THEN "-" \o ToString(r.year[1].b) ELSE "")
       md == JoinD(Map(r.monthday, DMonthday), ",")
       wk == IF r.week = <<>> THEN "" ELSE (IF y # "" \/ md # "" THEN " " ELSE "") \o "week" \o JoinD(Map(r.week, DWeek), ",")
       wd == JoinD(Map(r.weekday, DWeekday), ",")
